@@ -7,7 +7,7 @@ def build_structural(ex):
 
 
 PLAN = dict(
-    id="C08", level="proof", explanation="Soundness of summaries is shown to be preserved by every node given sound parts, so it holds for every expression/stack over the checked leaves by structural induction (mechanised in Verus for filter expressions of any depth: lemma_c08.verus.rs): And/Or/Not combinators with arbitrary sound part filters (symbolic interest, hint, dynamic verdicts; callsite of symbolic level); LevelFilter, FilterFn (+ with_max_level_hint), DynFilterFn leaves; Filtered's hint; the Layered flags equal their definitions for list nodes and tree nodes (F9, fixed); pick_interest over all flags x answers against 'never only if a global part said never / always only if all consulted parts said always'; pick_level_hint over all Option<LevelFilter>^2 x flags against a receive-semantics oracle with ghost (g, r) per side constrained by the induction hypothesis and the meaning of the flags - result is None or >= min(g_outer, g_inner, max(r_outer, r_inner)). The valuations of known finding F10 are split off (..._known); Vec summaries bounded (2 elements).",
+    id="C08", api_files=['tracing-subscriber/src/filter/subscriber_filters/combinator.rs', 'tracing-subscriber/src/subscribe/layered.rs'], level="proof", explanation="Soundness of summaries is shown to be preserved by every node given sound parts, so it holds for every expression/stack over the checked leaves by structural induction (mechanised in Verus for filter expressions of any depth: lemma_c08.verus.rs): And/Or/Not combinators with arbitrary sound part filters (symbolic interest, hint, dynamic verdicts; callsite of symbolic level); LevelFilter, FilterFn (+ with_max_level_hint), DynFilterFn leaves; Filtered's hint; the Layered flags equal their definitions for list nodes and tree nodes (F9, fixed); pick_interest over all flags x answers against 'never only if a global part said never / always only if all consulted parts said always'; pick_level_hint over all Option<LevelFilter>^2 x flags against a receive-semantics oracle with ghost (g, r) per side constrained by the induction hypothesis and the meaning of the flags - result is None or >= min(g_outer, g_inner, max(r_outer, r_inner)). The valuations of known finding F10 are split off (..._known); Vec summaries bounded (2 elements).",
     functions_under_contract=['subscribe/layered.rs: Layered::new (flags), pick_interest, pick_level_hint', 'filter/subscriber_filters/combinator.rs: And/Or/Not {enabled, callsite_enabled, max_level_hint, event_enabled}', 'filter/subscriber_filters/mod.rs: impl Filter for LevelFilter, Filtered::max_level_hint', 'filter/filter_fn.rs: FilterFn, DynFilterFn summaries', 'subscribe/mod.rs: Vec<S>::{register_callsite,max_level_hint}, and_then, with_collector'],
     trusted_base=["Kani 0.68 / CBMC 6.11 / CaDiCaL; Kani's std build (nightly-2026-08-21), not the repo toolchain's", 'core::fmt::Formatter::pad stubbed to Ok(()) with -Z stubbing (panic-message formatting on infeasible error branches; no harness that uses it reads formatted text)', 'Pool::clear stub'],
     assumptions=["the receive-semantics oracle (ghost g, r; need = min(g_o, g_i, max(r_o, r_i))) is my formalisation of 'what any of its layers would receive'; it is stated in DESIGN.md section 4 so it can be challenged", 'structural induction over And/Or/Not expressions is mechanised in Verus (lemma_c08.verus.rs) over the node formulas that Kani checks the real combinators against; for Layered stacks the induction over nodes is the stated meta-argument'],
